@@ -271,6 +271,16 @@ func init() {
 			{Name: "independent-objects", Count: n(20000, 1500000), Run: func(c *core.Ctx, idx int) {
 				judgeCreateObj(c, v5Create, prof.Object(c.R, 3), prof.Object(c.R, 3))
 			}},
+			{Name: "names-that-differ-by-case-folding-or-normalisation", Count: n(8000, 400000), Run: func(c *core.Ctx, idx int) {
+				near := prof.With(func(p *gen.Profile) { p.Keys = gen.NearMissKeys })
+				aT := near.Object(c.R, 1+c.R.Intn(3))
+				bT := near.Object(c.R, 1+c.R.Intn(3))
+				if idx%2 == 0 {
+					bT = near.Respell(c.R, editObject(c.R, near, mustParse(aT), 1+c.R.Intn(3)), c.R.Intn(2) == 0)
+				}
+				judgeCreateObj(c, v5Create, aT, bT)
+				c.Count("near-miss-names:cases")
+			}},
 			{Name: "arrays-and-root-kinds", Count: n(20000, 1200000), Run: func(c *core.Ctx, idx int) {
 				mk := func() (string, []string) {
 					k := c.R.Intn(4)
